@@ -118,6 +118,50 @@ func New(p *load.Program) (*Engine, error) {
 		}
 	}
 	walk(e.Step, 0)
+	if e.Exec != nil && best >= 100 {
+		// the unit Step executes is the function Step itself calls: when the big
+		// switch sits in a helper of that function (a decode() whose result the
+		// caller logs), take the caller - it takes only the CPU and returns nothing
+		contains := func(root *ssa.Function) bool {
+			seenC := map[*ssa.Function]bool{}
+			var rec func(f *ssa.Function, d int) bool
+			rec = func(f *ssa.Function, d int) bool {
+				if f == e.Exec {
+					return true
+				}
+				if seenC[f] || d > 3 {
+					return false
+				}
+				seenC[f] = true
+				for _, b := range f.Blocks {
+					for _, in := range b.Instrs {
+						if c, ok := in.(*ssa.Call); ok {
+							if cal := c.Call.StaticCallee(); cal != nil && load.InModule(cal) && cal.Blocks != nil && rec(cal, d+1) {
+								return true
+							}
+						}
+					}
+				}
+				return false
+			}
+			return rec(root, 0)
+		}
+		for _, b := range e.Step.Blocks {
+			for _, in := range b.Instrs {
+				c, ok := in.(*ssa.Call)
+				if !ok {
+					continue
+				}
+				cal := c.Call.StaticCallee()
+				if cal == nil || cal == e.Exec || !load.InModule(cal) || cal.Blocks == nil || len(cal.Params) != 1 || cal.Signature.Results().Len() != 0 {
+					continue
+				}
+				if contains(cal) {
+					e.Exec = cal
+				}
+			}
+		}
+	}
 	if e.Exec == nil || best < 100 {
 		// fallback by role: the static callee of Step that takes only the CPU,
 		// returns nothing, and has the largest body below it (a decoder that
